@@ -1,10 +1,10 @@
 SPECIFICATION Spec
 CONSTANTS
-  EOAs <- E2
+  EOAs <- E1
   Contracts <- K1
-  InitBal <- BalReal21
-  InitWq <- WqReal21
-  InitLock <- Lock21
+  InitBal <- BalReal11
+  InitWq <- WqReal11
+  InitLock <- Lock11
   LockVal = 1000000
   LowGas = 20000
   GasUnit = 700000
@@ -15,21 +15,22 @@ CONSTANTS
   Rent = 24914
   MinConv = 2000000
   TxValues <- RV03
-  CallValues <- RV01
+  CallValues <- RV0
   Regimes <- RG
   Prefills <- PF0
   TxKinds <- TKMulti
   OpKinds <- OKEtx
   DestClasses <- DSome2
-  AmtClasses <- ASome2
+  AmtClasses <- AMin
   GlClasses <- GOk
-  FeeClasses <- FSome
+  FeeClasses <- FOne
   AlClasses <- ALSome
-  MaxDepth = 2
+  MaxDepth = 1
   MaxFrameOps = 1
   MaxTx = 2
   UsedMode = "one"
   GrindFail = FALSE
 VIEW view
+INVARIANTS TypeOK NoNegative NoCreation ExactUnlessBurn EtxBacked ChargeWithinBounds FailedTxTouchesOnlyPayer FailedEtxTouchesNothing AllOrNothing StackDiscipline IndexFresh BlockOutboundIsConcatOfSurvivors
 ACTION_CONSTRAINT EmitHist
 CHECK_DEADLOCK FALSE
